@@ -467,6 +467,92 @@ def gost_rounds(rep, u):
             (rep.proved if ok else rep.violated)("R-SPEC", fn, "final-swap", "the halves are exchanged on output (no swap after the last round)", str(outs))
 
 
+def chacha_stream_coverage(rep, u):
+    """chacha_str_data_crypt: for each class of call (saved key stream none / partial / larger than the request; source buffer
+    present or NULL; request shorter or longer than a block) the bytes written are exactly dst[0 .. bytes) in order, each
+    once, and the source is read at the same offsets (transfer coverage by partial evaluation)"""
+    from rules import r_stride, r_mpt
+    from rules.core import strip_casts
+    fn = u.fn("chacha_str_data_crypt")
+    if fn is None:
+        raise driver.AnalysisBroken("anchor chacha_str_data_crypt vanished")
+    rep.functions.add(fn.name)
+    probe = u.records.get("chacha_context_str_s") or {}
+    CTX, SRC, DST = 0x10000, 0x20000, 0x30000
+    n = 0
+    bad = None
+    undec = None
+    for ks_len, bytes_, have_src in [(a, b, c) for a in (0, 10) for b in (5, 10, 70, 139) for c in (0, 1)]:
+        pe = r_stride.PE(u)
+        bind = {"ctx": CTX, "ctx->ks_len": ks_len, "src": SRC if have_src else 0, "bytes": bytes_, "dst": DST}
+        ev, ret = pe.trace(fn, bind, max_steps=20000)
+        if isinstance(ret, str):
+            undec = undec or "ks_len=%d bytes=%d src=%s: %s" % (ks_len, bytes_, "buf" if have_src else "NULL", ret)
+            continue
+        n += 1
+        KS = None
+        writes = []      # (dst offset, len, source: ('src', off) | ('ks', off) | None)
+
+        def val(x, b):
+            return r_mpt.eval_expr(x, {}, pe._hook(b, {}))
+        ok = True
+        for e, b in ev:
+            for x, ps in walk(e):
+                try:
+                    if x.get("k") == "bin" and x["op"] == "=" and strip_casts(x["x"]).get("k") in ("sub", "un"):
+                        a = pe._addr(strip_casts(x["x"]), lambda z: val(z, b))
+                        if DST <= a < DST + 0x1000:
+                            so = None
+                            for y, _ in walk(x["y"]):
+                                if y.get("k") in ("sub", "un") and y is not x["y"] or y.get("k") == "sub":
+                                    try:
+                                        sa = pe._addr(strip_casts(y), lambda z: val(z, b))
+                                        if SRC <= sa < SRC + 0x1000:
+                                            so = ("src", sa - SRC)
+                                    except (r_mpt.Unknown, KeyError, TypeError):
+                                        pass
+                            writes.append((a - DST, 1, so))
+                    elif x.get("k") == "call" and x.get("fn") == "memcpy":
+                        d_, s_, l_ = val(x["args"][0], b), val(x["args"][1], b), val(x["args"][2], b)
+                        if DST <= d_ < DST + 0x1000:
+                            writes.append((d_ - DST, l_, ("src", s_ - SRC) if SRC <= s_ < SRC + 0x1000 else ("ks", None)))
+                    elif x.get("k") == "call" and x.get("fn") == "chacha_blocks_transform":
+                        s_, c_, d_ = val(x["args"][1], b), val(x["args"][2], b), val(x["args"][3], b)
+                        if DST <= d_ < DST + 0x1000:
+                            writes.append((d_ - DST, 64 * c_, ("src", s_ - SRC) if have_src else None))
+                            if have_src and not (SRC <= s_ < SRC + 0x1000):
+                                ok = False
+                            if not have_src and s_ != 0:
+                                ok = False
+                except (r_mpt.Unknown, KeyError, TypeError):
+                    undec = undec or "an address in the trace (line %s) could not be evaluated" % x.get("ln")
+        # the tail block is transformed in the context's buffer and copied out; its source (when present) was copied in
+        cover = []
+        pos = 0
+        writes.sort(key=lambda w: (w[0], -w[1]))
+        prob = None
+        for off, ln_, so in writes:
+            if off != pos:
+                prob = "bytes %d..%d of the output are %s" % (min(pos, off), max(pos, off) - 1, "never written" if off > pos else "written twice")
+                break
+            if so is not None and so[0] == "src" and so[1] is not None and so[1] != off:
+                prob = "output offset %d is produced from source offset %d" % (off, so[1])
+                break
+            pos = off + ln_
+        if prob is None and pos != bytes_:
+            prob = "%d of %d output bytes are written" % (pos, bytes_)
+        if prob or not ok:
+            bad = bad or "ks_len=%d bytes=%d src=%s: %s" % (ks_len, bytes_, "buffer" if have_src else "NULL", prob or "block transform source pointer")
+    desc = "chacha_str_data_crypt writes exactly dst[0..bytes) once, in order, from the matching source offsets, in every call class"
+    if bad:
+        rep.violated("R-SPEC", fn, "stream-coverage", desc, bad)
+    elif undec:
+        rep.undecided("R-SPEC", fn, "stream-coverage", desc, undec)
+    else:
+        rep.proved("R-SPEC", fn, "stream-coverage", desc, "%d call classes (saved key stream 0/10, request 5/10/70/139 bytes, source NULL/buffer)" % n)
+    return n
+
+
 def gost_sbox(rep, u, us_small):
     fn = u.fn("gost28147_block32")
     rep.functions.add(fn.name)
@@ -680,6 +766,7 @@ def run(rep, tier):
     macro_coverage(rep, uc)
     block_siblings(rep, uc)
     gost_rounds(rep, ug)
+    rep.floor("ChaCha stream call classes", chacha_stream_coverage(rep, uc), 12)
     gost_sbox(rep, ug, ugs)
     gost_bulk(rep, ug)
     gost_bulk_small = None
